@@ -393,8 +393,8 @@ def crash_trial(case, i, k, root):
     return code, dec
 
 
-def fault_trial(case, i, k, after, root):
-    """in-process: OSError injected at call k of ops[i]; returns observations"""
+def fault_trial(case, i, k, after, root, persistent=False):
+    """in-process: OSError injected at call k of ops[i] (persistent: the device is full from call k on); returns observations"""
     R = IORunner(case, root)
     obs = {}
     try:
@@ -402,33 +402,53 @@ def fault_trial(case, i, k, after, root):
             R.op(op)
         old = R.contents()
         IO.CTL.reset()
-        IO.CTL.fail_at = k
-        IO.CTL.fail_after = after
+        if persistent:
+            IO.CTL.fail_from = k
+        else:
+            IO.CTL.fail_at = k
+            IO.CTL.fail_after = after
         out = R.r.line(case["ops"][i])
         injected = IO.CTL.failed is not None
         IO.CTL.fail_at = None
+        IO.CTL.fail_from = None
         obs.update(out=out, injected=injected, step=IO.CTL.failed)
         # the live object afterwards: consistent with its own storage, or failing
         tf = R.tf
         live = {}
-        try:
-            allp = [V.show_point(p) for p in R.r.db.all(sorted=False)]
-            cnt = R.r.db.count(tf.TimeQuery().noop())
-            ln = len(R.r.db)
-            live = dict(all=allp, count=cnt, len=ln)
-            if R.r.db.index.valid:
-                import fam_hist
-                from tinyflux.index import Index
 
-                fresh = Index()
-                fresh.build([R.r.db._storage._deserialize_storage_item(x) for x in R.r.db._storage])
-                for pr in fam_hist.probes():
-                    a1, a2 = fam_hist.safe_idx(R.r, R.r.db.index, pr), fam_hist.safe_idx(R.r, fresh, pr)
-                    if a1 != a2:
-                        live["index_drift"] = f"{V.sx(pr)}: the valid index answers {a1}, one rebuilt from storage {a2}"
-                        break
-        except Exception as e:
-            live = dict(error=type(e).__name__)
+        def attempt(name, fn):
+            # each read on its own: one that raises does not excuse another that answers
+            try:
+                live[name] = fn()
+            except Exception as e:
+                live.setdefault("errors", {})[name] = type(e).__name__
+
+        attempt("all", lambda: [V.show_point(p) for p in R.r.db.all(sorted=False)])
+        attempt("count", lambda: R.r.db.count(tf.TimeQuery().noop()))
+        attempt("len", lambda: len(R.r.db))
+        # answers the index alone can give: each must be the truth about the file the operation left, or an error
+        def idx_reads(db):
+            return dict(measurements=sorted(db.get_measurements()), tag_keys=sorted(db.get_tag_keys()),
+                        field_keys=sorted(db.get_field_keys()), timestamps=[str(t) for t in db.get_timestamps()],
+                        tag_values=sorted((k, sorted(map(repr, v))) for k, v in db.get_tag_values().items()))
+
+        for name in ("measurements", "tag_keys", "field_keys", "timestamps", "tag_values"):
+            attempt(name, lambda name=name: idx_reads(R.r.db)[name])
+        if not live.get("errors"):
+            try:
+                if R.r.db.index.valid:
+                    import fam_hist
+                    from tinyflux.index import Index
+
+                    fresh = Index()
+                    fresh.build([R.r.db._storage._deserialize_storage_item(x) for x in R.r.db._storage])
+                    for pr in fam_hist.probes():
+                        a1, a2 = fam_hist.safe_idx(R.r, R.r.db.index, pr), fam_hist.safe_idx(R.r, fresh, pr)
+                        if a1 != a2:
+                            live["index_drift"] = f"{V.sx(pr)}: the valid index answers {a1}, one rebuilt from storage {a2}"
+                            break
+            except Exception as e:
+                live.setdefault("errors", {})["probe"] = type(e).__name__
         obs["live"] = live
         obs["old"] = old
         try:
@@ -438,6 +458,17 @@ def fault_trial(case, i, k, after, root):
         R.r.db = None
         obs["file"] = R.decode_file()
         obs["ls"] = R.listing()
+        # what a fresh database object over the file the operation left answers (the reference for the live reads)
+        try:
+            undo, R.undo = R.undo, (lambda: None)
+            undo()
+            ref_db = tf.TinyFlux(R.path, access_mode="r", encoding=R.enc, **R.kw)
+            try:
+                obs["ref"] = idx_reads(ref_db)
+            finally:
+                ref_db.close()
+        except Exception as e:
+            obs["ref_error"] = type(e).__name__
     finally:
         R.close()
         R.cleanup()
@@ -543,6 +574,27 @@ def analyse_case(case, prop, tier, root):
                                   dict(call=k)))
                     break
                 k += 1
+            # the device fills up at call k and stays full: whatever the operation does about it, the caller hears of it,
+            # the database file holds the old or the new contents and no temporary file stays behind
+            n = len(recs[i]["trace"])
+            old = recs[i - 1]["contents"] if i > 0 else []
+            for k in (range(n) if n <= 60 else sorted(set(list(range(20)) + list(range(20, n, max(1, n // 30)))))):
+                if extra:
+                    break
+                obs = fault_trial(case, i, k, False, root, persistent=True)
+                if not obs.get("injected"):
+                    continue
+                stats["fault_trials"] += 1
+                what = f"`{V.sx(recs[i]['op'])[:120]}` with the device full from I/O call {k} on ({obs.get('step')})"
+                if not obs["out"].startswith("err"):
+                    extra.append(("impl-vs-spec", ["C13", "C15"], i, f"{what}: returned {obs['out'][:60]} — the error did not reach the caller",
+                                  dict(call=k, persistent=True)))
+                elif obs["ls"] != ([], ["db.csv"]):
+                    extra.append(("impl-vs-spec", ["C15"], i, f"{what}: raised, and left files behind: {obs['ls']}",
+                                  dict(call=k, persistent=True)))
+                elif not prefixes_ok(obs["file"], old, recs[i]["contents"], recs[i]["name"] == "ins"):
+                    extra.append(("impl-vs-spec", ["C13", "C15"], i, f"{what}: afterwards the file decodes to {obs['file']}",
+                                  dict(call=k, persistent=True)))
     return recs, final, reopened, final_ls, extra, stats
 
 
@@ -560,16 +612,28 @@ def check_fault(obs, old, new, is_ins, rec, k, after):
     #  C13 speaks about the database file and the live object, C15 about completed or raising operations
     #  without I/O faults)
     live = obs["live"]
-    if "error" not in live:
-        if not (len(live["all"]) == live["count"] == live["len"]):
-            return (f"{where}: the live database silently answers inconsistently: all()={len(live['all'])} points, "
-                    f"count={live['count']}, len={live['len']}")
-        if not prefixes_ok(live["all"], old, new, is_ins):
-            return f"{where}: the live database holds {live['all']} — neither old {old} nor new {new}"
-        if live["all"] != obs["file"]:
-            return f"{where}: the live database answers {live['all']} but its file holds {obs['file']}"
-        if live.get("index_drift"):
-            return f"{where}: afterwards the index claims to be valid but disagrees with storage — {live['index_drift']}"
+    rows = obs["file"]
+    answered = {k: live[k] for k in ("all", "count", "len") if k in live}
+    sizes = {k: (len(v) if k == "all" else v) for k, v in answered.items()}
+    if len(set(sizes.values())) > 1:
+        return f"{where}: the live database silently answers inconsistently: {sizes}"
+    # an answer given without an error must be the truth about the database's own storage (the file it left)
+    if isinstance(rows, list):
+        for k, v in sizes.items():
+            if v != len(rows):
+                return (f"{where}: afterwards the live database answers {k} = {v} without an error, but its file holds "
+                        f"{len(rows)} rows ({'others raise: ' + str(live.get('errors')) if live.get('errors') else 'no read raises'})")
+    for k, want in (obs.get("ref") or {}).items():
+        if k in live and live[k] != want:
+            return (f"{where}: afterwards the live database answers {k} = {str(live[k])[:120]} without an error, but a fresh "
+                    f"database over its file answers {str(want)[:120]}")
+    if "all" in answered:
+        if not prefixes_ok(answered["all"], old, new, is_ins):
+            return f"{where}: the live database holds {answered['all']} — neither old {old} nor new {new}"
+        if answered["all"] != rows:
+            return f"{where}: the live database answers {answered['all']} but its file holds {rows}"
+    if live.get("index_drift"):
+        return f"{where}: afterwards the index claims to be valid but disagrees with storage — {live['index_drift']}"
     return None
 
 
